@@ -53,6 +53,11 @@ CLAIMED = {
    technique="exhaustive enumeration of table-file arrangements run through the real compaction coordinator, explicit-state search over flush/compact/restart programs on the real engine, and crash-point enumeration inside compaction",
    text="File level: every {absent,value,tombstone} assignment of 3 keys x files for 6 file-set shapes (2 keys for the 4-file shapes in the quick tier) is written with the real SSTable writer; TriggerCompaction (until nothing is selected, checked after every cycle) and CompactRange over 5 ranges run with tracked / unknown / expired tombstones; the newest-wins merged view of all files must not change, outputs must be sorted and files of a level >=1 must not share keys. Engine level: all programs up to depth 4 (6 thorough) over {flushed put/delete of 2 keys, compact, compact-range, reopen, clock +25 h}: reads = model live, after reopen, after reopen with the flushed log files retired, and after one more compaction. Crash points: every call-log prefix and torn write inside a compaction following 3 flushed writes.",
    note="Recency rule (lower level newer; within level 0 higher file number newer) is the specification's. Log retirement is simulated by deleting flushed log files."),
+ "C06": dict(
+   level="model_checking", design="§3 C06, §2.2",
+   technique="stateless model checking of the real engine: exhaustive interleaving exploration under a controlled scheduler (deviation bound, happens-before caching) with a porcupine linearizability oracle",
+   text="10 scenarios (2-3 client threads x 1-2 put/get/delete on colliding keys; the engine's own background flush thread; explicit flush and compaction callers; memtable 1 B so that every write switches the table, signals the flush and rotates the log) are explored over all interleavings up to 2 deviations (3 thorough; one 3-thread scenario one less). Every recorded call/return history must be linearizable against a whole-store model with failed writes as no-ops, final reads included; every acknowledged put must be in the log exactly once and no failed put at all.",
+   note="SC interleavings of visible operations; data races are C07's subject. Bounds: threads, operations per thread, deviation bound."),
 }
 
 ALL = ["C%02d" % i for i in range(1, 21)]
